@@ -176,3 +176,17 @@ func H12g_VerdictIndependentOfOtherQuotes() {
 	vp.Reach("quote-rejected", before != nil)
 	vp.Assert("same-verdict-before-and-after-another-quote", (before == nil) == (after == nil))
 }
+
+// thorough tier: monotonicity with a caller-supplied pool and QE authentication data
+func T12h_Monotone_Pool1_Auth32() {
+	w := mkCollateralWorld(1, 1, 0, 1, 1, 1)
+	quote := mkQuote(w.pki, 32)
+	now := symTimeSet("t")
+	errRev := TdxQuote(quote, freshOpts(w, true, true, now))
+	if errRev != nil {
+		return
+	}
+	vp.Reach("accepted-with-revocation", true)
+	vp.Assert("accepted-with-revocation-implies-accepted-with-collateral", TdxQuote(quote, freshOpts(w, true, false, now)) == nil)
+	vp.Assert("accepted-with-revocation-implies-accepted-without-collateral", TdxQuote(quote, freshOpts(w, false, false, now)) == nil)
+}
